@@ -43,9 +43,9 @@ func runC12(c *Ctx) {
 			cancels = append(cancels, d)
 		}
 	}
-	c.obF("R12.1", sub, "derives-context", len(ctxCalls) == 2 && len(cancels) == 1, "Submit derives a cancellable context and defers its cancel", fmt.Sprintf("%d derivations, %d deferred cancels", len(ctxCalls), len(cancels)))
+	c.obRF("R12.1", sub, "derives-context", len(ctxCalls) == 2 && len(cancels) == 1, "Submit derives a cancellable context and defers its cancel", fmt.Sprintf("%d derivations, %d deferred cancels", len(ctxCalls), len(cancels)))
 	dos := callsIn(sub, "(*net/http.Client).Do")
-	c.obF("R12.1", sub, "sends", len(dos) == 1, "Submit sends the request once", "")
+	c.obRF("R12.1", sub, "sends", len(dos) == 1, "Submit sends the request once", "")
 	if len(cancels) == 1 && len(dos) == 1 {
 		d := cancels[0]
 		do := dos[0].(*ssa.Call)
@@ -79,6 +79,10 @@ func runC12(c *Ctx) {
 				}
 				c.obI("R12.1", cc, "timeout-is-request-timeout", okT, "the deadline is the request's timeout", "")
 			}
+		}
+		// precedence kept as an ordered table of candidates: the operation's context is listed before the transport's
+		if found, okOrd := candidateTableOrder(sub, vFieldLoadO("rt.ClientOperation", "Context"), vFieldLoadO("rt/client.Runtime", "Context")); found {
+			c.obF("R12.1", sub, "context-candidates-ordered", okOrd, "in the table of candidate parent contexts the operation's context comes before the transport-wide one", "the transport-wide context is listed first")
 		}
 		// precedence: runtime context only when the operation has none
 		for _, in := range instrs(sub) {
@@ -123,7 +127,7 @@ func runC12(c *Ctx) {
 				}
 			}
 		}
-		c.obF("R12.2", sub, "defers-body-close", len(closes) == 1, "Submit defers closing the response body", fmt.Sprintf("%d", len(closes)))
+		c.obRF("R12.2", sub, "defers-body-close", len(closes) == 1, "Submit defers closing the response body", fmt.Sprintf("%d", len(closes)))
 		for _, r := range realReturns(sub) {
 			if !pathExists(sub, do, r, nil, nil) {
 				continue
@@ -141,7 +145,7 @@ func runC12(c *Ctx) {
 	f := p.Fn("(*rt/client.request).buildHTTP")
 	gostmt := theGo(f)
 	g := goClosure(f)
-	c.obF("R12.3", f, "starts-writer", gostmt != nil && g != nil, "the multipart writer goroutine", "")
+	c.obRF("R12.3", f, "starts-writer", gostmt != nil && g != nil, "the multipart writer goroutine", "")
 	if gostmt == nil || g == nil {
 		return
 	}
@@ -235,7 +239,7 @@ func runC12(c *Ctx) {
 		ok, why := released(r)
 		c.obI("R12.3", r, "pipe-released-on-error", ok, "every `return nil, err` of buildHTTP that is reachable after the writer goroutine was started releases the pipe's read end (so the goroutine terminates and closes the files)", why)
 	}
-	c.obF("R12.3", f, "error-returns-after-go", nErr >= 5, "error exits after the go statement exist and are checked", fmt.Sprintf("%d", nErr))
+	c.obRF("R12.3", f, "error-returns-after-go", nErr >= 5, "error exits after the go statement exist and are checked", fmt.Sprintf("%d", nErr))
 	// success return hands out the request built over the body
 	c.min("R12.3", 6)
 
@@ -273,8 +277,22 @@ func runC12(c *Ctx) {
 			}
 		}
 	}
-	c.obF("R12.4", g, "closes-all-files", fileCloser != nil, "the goroutine defers closing EVERY file of every file field (one up-front closer over r.fileFields)", "no deferred closer ranging over all upload files: an early exit leaves later files unclosed")
-	c.obF("R12.4", g, "closes-pipe-writer", pipeCloser != nil, "the goroutine defers closing the pipe writer", "")
+	// files are closed somewhere in the goroutine (the mechanism is there) but not by an up-front closer over ALL of them:
+	// a property violation — an early exit leaves the files not yet reached open
+	closesSomeFile := false
+	for _, fn := range withClosures(g) {
+		for _, ci := range allCalls(fn) {
+			if ci.Common().IsInvoke() && ci.Common().Method.Name() == "Close" && typeStr(ci.Common().Value.Type()) == "rt.NamedReadCloser" {
+				closesSomeFile = true
+			}
+		}
+	}
+	if fileCloser == nil && closesSomeFile {
+		c.obF("R12.4", g, "closes-all-files", false, "the goroutine defers closing EVERY file of every file field (one up-front closer over r.fileFields)", "files are closed one by one as they are reached: an early exit leaves later files unclosed")
+	} else {
+		c.obRF("R12.4", g, "closes-all-files", fileCloser != nil, "the goroutine defers closing EVERY file of every file field (one up-front closer over r.fileFields)", "no deferred closer ranging over all upload files: an early exit leaves later files unclosed")
+	}
+	c.obRF("R12.4", g, "closes-pipe-writer", pipeCloser != nil, "the goroutine defers closing the pipe writer", "")
 	for _, r := range realReturns(g) {
 		if fileCloser != nil {
 			c.obI("R12.4", r, "file-closer-registered-on-every-exit", !pathExists(g, nil, r, nil, isOneOf(fileCloser)), "the file closer is registered before any exit of the goroutine", "an exit (e.g. a failing WriteField) precedes the registration of the file closer")
@@ -339,7 +357,7 @@ func runC12(c *Ctx) {
 			inner = append(inner, ci)
 		}
 	}
-	c.obF("R12.5", cl, "closes-wrapped-body", len(inner) >= 1, "Close closes the wrapped body", "")
+	c.obRF("R12.5", cl, "closes-wrapped-body", len(inner) >= 1, "Close closes the wrapped body", "")
 	for _, r := range realReturns(cl) {
 		c.obI("R12.5", r, "always-closes", !pathExists(cl, nil, r, nil, isOneOf(inner...)), "the wrapped body is closed on every path", "a path returns without closing the wrapped body")
 		okE := false
